@@ -1,4 +1,5 @@
 import BppModel.PNorm
+import BppModel.DistGuards
 import BppProofs.Lemmas.ScalarReal
 /-!
 Helper lemmas for C08: the exact-arithmetic reading (`ℝ`) of `BppModel/PNorm.lean` and
@@ -244,7 +245,7 @@ theorem five_le_cut2 : (5 : ℝ) ≤ cut2 := by
   rw [cut2_real, Real.le_sqrt' (by norm_num)]; norm_num
 
 /-- `temp` of the third range lies in `[0,1]` once `|x| ≥ 5` -/
-theorem tailTemp_bd {x : ℝ} (hx : 5 ≤ |x|) : 0 ≤ tailTemp x ∧ tailTemp x ≤ 1 := by
+theorem tailTemp_bd {x : ℝ} (hx : 5 ≤ |x|) : 0 < tailTemp x ∧ tailTemp x ≤ 1 := by
   have hxx : 25 ≤ x * x := by
     have : x * x = |x| * |x| := (abs_mul_abs_self x).symm
     rw [this]; nlinarith
@@ -258,7 +259,7 @@ theorem tailTemp_bd {x : ℝ} (hx : 5 ≤ |x|) : 0 ≤ tailTemp x ∧ tailTemp x
   have hden : 0 < tDen s + q4 := by linarith
   have hT0 : 0 ≤ s * (tNum s + p4) / (tDen s + q4) :=
     div_nonneg (mul_nonneg hs0 (by linarith [hN.1])) (le_of_lt hden)
-  have hT : s * (tNum s + p4) / (tDen s + q4) ≤ 1 / 3 := by
+  have hT : s * (tNum s + p4) / (tDen s + q4) ≤ 1 / 4 := by
     rw [div_le_iff₀ hden]
     have h1 : s * (tNum s + p4) ≤ 1 / 25 * (2 / 10000 + 3 / 100000) :=
       mul_le_mul hs (by linarith [hN.2]) (by linarith [hN.1]) (by norm_num)
@@ -269,7 +270,7 @@ theorem tailTemp_bd {x : ℝ} (hx : 5 ≤ |x|) : 0 ≤ tailTemp x ∧ tailTemp x
     simp [tailTemp, hsdef]
   rw [e]
   constructor
-  · apply div_nonneg _ (le_of_lt hax); linarith
+  · apply div_pos _ hax; linarith
   · rw [div_le_one hax]; linarith
 
 theorem farTail_bd {ex tr : ℝ → ℝ} (H : ExpTrunc ex tr) {x : ℝ} (hx : 5 ≤ |x|) :
@@ -287,7 +288,7 @@ theorem farTail_bd {ex tr : ℝ → ℝ} (H : ExpTrunc ex tr) {x : ℝ} (hx : 5 
   · apply H.ex_range
     have := del_nonneg H.tr_range hpos
     linarith
-  · exact tailTemp_bd hx
+  · exact ⟨le_of_lt (tailTemp_bd hx).1, (tailTemp_bd hx).2⟩
 
 
 /-- the mathematical `trunc` (round towards zero) -/
@@ -312,3 +313,144 @@ theorem expTrunc_real : ExpTrunc Real.exp truncR where
   tr_odd := truncR_odd
 
 end Bpp.PNorm
+
+namespace Bpp.PNorm
+open Bpp Bpp.Scalar
+
+/-! ### `qNorm` at `ℝ` -/
+
+theorem qEps_real : (qEps : ℝ) = 6646139978924579 / 2 ^ 119 := by simp [qEps]
+theorem qEps_pos : (0 : ℝ) < qEps := by rw [qEps_real]; norm_num
+theorem qEps_lt_half : (qEps : ℝ) < 1 / 2 := by rw [qEps_real]; norm_num
+theorem qEps_ge : (1 / 2 ^ 67 : ℝ) ≤ qEps := by rw [qEps_real]; norm_num
+@[simp] theorem qSentinel_real : (qSentinel : ℝ) = -9999 := by simp [qSentinel]
+
+theorem qP1_real (p : ℝ) : qP1 p = if p < 1 / 2 then p else 1 - p := by simp [qP1]
+
+theorem qNormSentinel_iff (p : ℝ) : qNormSentinel p = true ↔ p < qEps ∨ 1 - qEps < p := by
+  have h := qEps_lt_half
+  simp only [qNormSentinel, ScalarReal.ltb_iff, qP1_real]
+  split
+  · constructor
+    · intro h1; exact Or.inl h1
+    · rintro (h1 | h1)
+      · exact h1
+      · linarith
+  · constructor
+    · intro h1; right; linarith
+    · rintro (h1 | h1)
+      · linarith
+      · linarith
+
+theorem qNorm_real (p : ℝ) :
+    qNorm p = if qP1 p < qEps then -9999 else if p < 1 / 2 then -qZ (qP1 p) else qZ (qP1 p) := by
+  simp [qNorm]
+
+/-- the rational correction term of Odeh & Evans lies in `[-4, 0]` for `y ≥ 0` -/
+theorem qRatio_bd {y : ℝ} (hy : 0 ≤ y) :
+    -4 ≤ ((((y * qa4 + qa3) * y + qa2) * y + qa1) * y + qa0) / ((((y * qb4 + qb3) * y + qb2) * y + qb1) * y + qb0) ∧
+    ((((y * qa4 + qa3) * y + qa2) * y + qa1) * y + qa0) / ((((y * qb4 + qb3) * y + qb2) * y + qb1) * y + qb0) ≤ 0 := by
+  have a0 : (-4 * qb0 : ℝ) ≤ qa0 ∧ (qa0 : ℝ) ≤ 0 := by simp only [qa0, qb0, dy_real]; norm_num
+  have a1 : (-4 * qb1 : ℝ) ≤ qa1 ∧ (qa1 : ℝ) ≤ 0 := by simp only [qa1, qb1, dy_real, ScalarReal.ofInt_eq]; norm_num
+  have a2 : (-4 * qb2 : ℝ) ≤ qa2 ∧ (qa2 : ℝ) ≤ 0 := by simp only [qa2, qb2, dy_real]; norm_num
+  have a3 : (-4 * qb3 : ℝ) ≤ qa3 ∧ (qa3 : ℝ) ≤ 0 := by simp only [qa3, qb3, dy_real]; norm_num
+  have a4 : (-4 * qb4 : ℝ) ≤ qa4 ∧ (qa4 : ℝ) ≤ 0 := by simp only [qa4, qb4, dy_real]; norm_num
+  have b0 : (0 : ℝ) < qb0 := by simp only [qb0, dy_real]; norm_num
+  have b1 : (0 : ℝ) ≤ qb1 := by simp only [qb1, dy_real]; norm_num
+  have b2 : (0 : ℝ) ≤ qb2 := by simp only [qb2, dy_real]; norm_num
+  have b3 : (0 : ℝ) ≤ qb3 := by simp only [qb3, dy_real]; norm_num
+  have b4 : (0 : ℝ) ≤ qb4 := by simp only [qb4, dy_real]; norm_num
+  -- Horner: -4 D_k ≤ N_k ≤ 0 and D_k ≥ 0 at every stage
+  have step : ∀ {n d a b : ℝ}, (-4 * d ≤ n ∧ n ≤ 0 ∧ 0 ≤ d) → (-4 * b ≤ a ∧ a ≤ 0) → 0 ≤ b →
+      (-4 * (d * y + b) ≤ n * y + a ∧ n * y + a ≤ 0 ∧ 0 ≤ d * y + b) := by
+    intro n d a b h ha hb
+    have h1 : -4 * d * y ≤ n * y := mul_le_mul_of_nonneg_right h.1 hy
+    have h2 : n * y ≤ 0 := mul_nonpos_of_nonpos_of_nonneg h.2.1 hy
+    have h3 : 0 ≤ d * y := mul_nonneg h.2.2 hy
+    exact ⟨by nlinarith, by linarith [ha.2], by linarith⟩
+  have s0 : -4 * (y * qb4 + qb3) ≤ y * qa4 + qa3 ∧ y * qa4 + qa3 ≤ 0 ∧ 0 ≤ y * qb4 + qb3 := by
+    have := step (n := qa4) (d := qb4) ⟨a4.1, a4.2, b4⟩ a3 b3
+    simpa [mul_comm] using this
+  have s1 := step s0 a2 b2
+  have s2 := step s1 a1 b1
+  have s3 := step s2 a0 (le_of_lt b0)
+  have hD : 0 < (((y * qb4 + qb3) * y + qb2) * y + qb1) * y + qb0 := by
+    have := mul_nonneg s2.2.2 hy; linarith
+  exact ⟨by rw [le_div_iff₀ hD]; linarith [s3.1], div_nonpos_of_nonpos_of_nonneg s3.2.1 (le_of_lt hD)⟩
+
+theorem qZ_bd (p1 : ℝ) : Real.sqrt (Real.log (1 / (p1 * p1))) - 4 ≤ qZ p1 ∧
+    qZ p1 ≤ Real.sqrt (Real.log (1 / (p1 * p1))) := by
+  have h := qRatio_bd (Real.sqrt_nonneg (Real.log (1 / (p1 * p1))))
+  simp only [qZ, ScalarReal.sqrt_eq, ScalarReal.log_eq, ScalarReal.one_eq]
+  constructor <;> linarith [h.1, h.2]
+
+/-- for `p1 ≥ 1e-20` the argument `y` of the rational function is at most 12 -/
+theorem qY_le {p1 : ℝ} (h : qEps ≤ p1) : Real.sqrt (Real.log (1 / (p1 * p1))) ≤ 12 := by
+  have hp : (1 / 2 ^ 67 : ℝ) ≤ p1 := le_trans qEps_ge h
+  have hpos : (0 : ℝ) < p1 := lt_of_lt_of_le (by positivity) hp
+  have h1 : 1 / (p1 * p1) ≤ (2 : ℝ) ^ 134 := by
+    rw [div_le_iff₀ (by positivity)]
+    have : (1 / 2 ^ 67 : ℝ) * (1 / 2 ^ 67) ≤ p1 * p1 := mul_le_mul hp hp (by positivity) (le_of_lt hpos)
+    calc (1 : ℝ) = 2 ^ 134 * (1 / 2 ^ 67 * (1 / 2 ^ 67)) := by norm_num
+      _ ≤ 2 ^ 134 * (p1 * p1) := mul_le_mul_of_nonneg_left this (by positivity)
+  have h2 : Real.log (1 / (p1 * p1)) ≤ 134 := by
+    calc Real.log (1 / (p1 * p1)) ≤ Real.log ((2 : ℝ) ^ 134) := Real.log_le_log (by positivity) h1
+      _ = 134 * Real.log 2 := by rw [Real.log_pow]; norm_num
+      _ ≤ 134 * 1 := by
+          have : Real.log 2 ≤ 2 - 1 := Real.log_le_sub_one_of_pos (by norm_num)
+          nlinarith
+      _ = 134 := by norm_num
+  rw [Real.sqrt_le_left (by norm_num)]
+  linarith
+
+/-- inside its domain `qNorm` never returns the error value -/
+theorem qNorm_ne_sentinel {p : ℝ} (h : qNormSentinel p = false) : qNorm p ≠ -9999 := by
+  have hs : ¬ (qP1 p < qEps) := by
+    simpa [qNormSentinel] using h
+  rw [qNorm_real, if_neg hs]
+  have hb := qZ_bd (qP1 p)
+  have hy := qY_le (not_lt.mp hs)
+  have hy0 := Real.sqrt_nonneg (Real.log (1 / (qP1 p * qP1 p)))
+  split
+  · intro e; linarith [hb.2]
+  · intro e; linarith [hb.1]
+
+end Bpp.PNorm
+
+namespace Bpp.DistGuards
+open Bpp Bpp.Scalar Bpp.PNorm
+
+/-! ### the guard layer at `ℝ` -/
+
+@[simp] theorem eqb_false_iff (x y : ℝ) : Scalar.eqb x y = false ↔ x ≠ y := by simp [Scalar.eqb]
+@[simp] theorem minusOne_real : (minusOne : ℝ) = -1 := by simp [minusOne]
+theorem chLo_real : (chLo : ℝ) = 4722366482869645 / 2 ^ 71 := by simp [chLo]
+theorem chHi_real : (chHi : ℝ) = 9007181240342483 / 2 ^ 53 := by simp [chHi]
+theorem chLo_pos : (0 : ℝ) < chLo := by rw [chLo_real]; norm_num
+theorem chLo_lt_chHi : (chLo : ℝ) < chHi := by rw [chLo_real, chHi_real]; norm_num
+theorem chHi_lt_one : (chHi : ℝ) < 1 := by rw [chHi_real]; norm_num
+
+theorem igSentinel_iff (x a : ℝ) : igSentinel x a = true ↔ x ≠ 0 ∧ (x < 0 ∨ a ≤ 0) := by
+  simp [igSentinel]
+theorem pGammaRaises_iff (a b : ℝ) : pGammaRaises a b = true ↔ a < 0 ∨ b < 0 := by
+  simp [pGammaRaises]
+theorem pChisqRaises_iff (x v : ℝ) : pChisqRaises x v = true ↔ 0 ≤ x ∧ v < 0 := by
+  simp [pChisqRaises]
+  intro _
+  constructor <;> intro h <;> linarith
+theorem qChisqSentinel_iff (p v : ℝ) : qChisqSentinel p v = true ↔ p < chLo ∨ chHi < p ∨ v ≤ 0 := by
+  simp [qChisqSentinel, or_assoc]
+theorem ibRaises_iff (x a b : ℝ) : ibRaises x a b = true ↔ a ≤ 0 ∨ b ≤ 0 ∨ x < 0 ∨ 1 < x := by
+  simp [ibRaises, or_assoc]
+theorem qBetaRaises_iff (p a b : ℝ) : qBetaRaises p a b = true ↔ p < 0 ∨ 1 < p ∨ a < 0 ∨ b < 0 := by
+  simp [qBetaRaises, or_assoc]
+
+theorem qChisq_of_sentinel (K : Kernels ℝ) (p v : ℝ) (h : qChisqSentinel p v = true) : qChisq K p v = -1 := by
+  have : (ltb p chLo || gtb p chHi || leb v zero) = true := h
+  simp only [qChisq, this, if_true, minusOne_real]
+theorem qChisq_of_domain (K : Kernels ℝ) (p v : ℝ) (h : qChisqSentinel p v = false) : qChisq K p v = K.qChisqCore p v := by
+  have : (ltb p chLo || gtb p chHi || leb v zero) = false := h
+  simp only [qChisq, this, Bool.false_eq_true, if_false]
+
+
+end Bpp.DistGuards
